@@ -5,6 +5,12 @@ from vlib.props import c02
 from vlib.runner import Case
 
 CORPUS = [
+    # procedure names are case sensitive: a name that exists only in another spelling is undefined
+    "PROCEDURE TOTAL(a, b) {\nRETURN a + b\n}\nDISPLAY(TOTAL(1, 2))\nDISPLAY(total(t(3, 3), 4))\nDISPLAY(\"after\")\n",
+    "PROCEDURE f(a) {\nRETURN a\n}\nDISPLAY(f(1))\nDISPLAY(F(2))\n", "display(1)\nDISPLAY(2)\n", "l <- [1]\nDISPLAY(length(l))\n",
+    # a variable assigned in one activation is gone in the next, and in an activation of another procedure
+    "PROCEDURE remember(v) {\nsecret <- v * 2\nRETURN secret\n}\nPROCEDURE peek() {\nRETURN secret\n}\nDISPLAY(remember(21))\nDISPLAY(peek())\nDISPLAY(\"after\")\n",
+    "PROCEDURE once(n) {\nIF (n == 1) {\nkept <- 7\n}\nRETURN kept\n}\nDISPLAY(once(1))\nDISPLAY(once(2))\n",
     "PROCEDURE f() {\nRETURN 1\nDISPLAY(\"x\")\nRETURN 2\n}\nDISPLAY(f())\n",
     "PROCEDURE g(l) {\nFOR EACH x IN l {\nIF (x == 2) { RETURN x\n}\nDISPLAY(x)\n}\nRETURN 0\n}\nDISPLAY(g([1,2,3]))\n",
     "a <- 1\nPROCEDURE f(p) {\nDISPLAY(a)\n}\nf(2)\n", "a <- 1\nPROCEDURE f(p) {\na <- p\nRETURN a\n}\nDISPLAY(f(5))\nDISPLAY(a)\n",
